@@ -27,8 +27,8 @@ type position struct {
 // object of the nested positions is one shared pointer. The response must
 // show at every position the digest of the value sent for that position, and
 // the resolvers must have seen exactly the values sent.
-func positionsLeg(run *vlib.Run, i int, fx *fixture, argsT reflect.Type, names []string, typeSig string, expensive bool) {
-	r := run.Rand("positions", i)
+func positionsLeg(run *vlib.Run, i int, fx *fixture, argsT reflect.Type, names []string, typeSig string, expensive bool, leg string) {
+	r := run.Rand("positions"+leg, i)
 	layout := r.Intn(5)
 	alias := []string{"v", "v", "v", "f", "arg"}[r.Intn(5)]
 	sameAlias := r.Intn(5) != 0
